@@ -715,7 +715,7 @@ def gate_xsd(ctx):
                     g = guard_strings(b, ls, ctx.senv(b))
                     from ..dom import or_guarded
 
-                    if not or_guarded(b, ls, lambda s, o: o is True and re.match(r"^eq\('[\^\$]', ", s) is not None, ctx.senv(b)):
+                    if not or_guarded(b, ls, lambda s, o: (o is True and re.match(r"^eq\('[\^\$]', ", s) is not None) or (isinstance(o, tuple) and o[0] == "char" and chr(o[1]) in "^$"), ctx.senv(b)):
                         ok_dom = False
                 good = ok_dom
                 msg = "the dialect test in parse_atom is not tied to the characters '^' and '$'"
